@@ -78,6 +78,9 @@ type decorator struct {
 	// names counts the expanded leaves produced so far; past nameBudget no
 	// further alias tags are handed out (the cost of a case is linear in it).
 	names int
+	// embSrcUsed: EmbSrc (absolute source-specific names) is embedded at most
+	// once per config type.
+	embSrcUsed bool
 }
 
 const nameBudget = 96
@@ -136,6 +139,10 @@ func (d *decorator) decorate(fs []shape.Field, aliasedAbove int) {
 	underAliased := aliasedAbove > 0
 	for i := range fs {
 		f := &fs[i]
+		if isEmbedKind(f.Kind) {
+			d.decorateEmbed(f, aliasedAbove)
+			continue
+		}
 		forced := false
 		seen := map[string]bool{}
 		for _, w := range f.Words {
@@ -208,11 +215,68 @@ func (d *decorator) decorate(fs []shape.Field, aliasedAbove int) {
 	}
 }
 
+// countLeaves counts the leaves of a field list (an aliased leaf twice).
+func countLeaves(fs []shape.Field) int {
+	n := 0
+	for i := range fs {
+		switch f := &fs[i]; {
+		case f.Kind == "leaf":
+			n++
+			if hasAnyAliasTag(f) {
+				n++
+			}
+		case isEmbedKind(f.Kind):
+			ks, _ := embedKids(f.Type)
+			n += countLeaves(ks)
+		default:
+			n += countLeaves(f.Fields)
+		}
+	}
+	return n
+}
+
+// decorateEmbed tags an embedded field.  The fields inside it are fixed by
+// its Go type; the embedded field itself may get a dials tag (it then behaves
+// like a named field) and / or a dialsalias tag (the primary copy stays
+// promoted, the alias copy is a named field).  Once per config type, at a
+// place with no aliased field above, the embedded type may be replaced by
+// EmbSrc, whose leaves carry source-specific names.
+func (d *decorator) decorateEmbed(f *shape.Field, aliasedAbove int) {
+	isSrc := false
+	if aliasedAbove == 0 && !d.embSrcUsed && rapid.IntRange(0, 3).Draw(d.t, "embed_src_type") == 0 {
+		f.Type, f.Name = "EmbSrc", "EmbSrc"
+		d.embSrcUsed, isSrc = true, true
+	}
+	var tags []string
+	if rapid.IntRange(0, 99).Draw(d.t, "embed_has_dials_tag") < 25 {
+		tags = append(tags, fmt.Sprintf(`dials:%q`, d.freshTag()))
+	}
+	aliasPct := 30
+	if isSrc || aliasedAbove >= 2 || d.names > nameBudget {
+		aliasPct = 0
+	}
+	aliased := rapid.IntRange(0, 99).Draw(d.t, "embed_has_alias") < aliasPct
+	if aliased {
+		tags = append(tags, fmt.Sprintf(`dialsalias:%q`, d.freshTag()))
+	}
+	ks, _ := embedKids(f.Type)
+	n := countLeaves(ks) << aliasedAbove
+	if aliased {
+		n *= 2
+	}
+	d.names += n
+	if len(tags) > 1 {
+		tags = rapid.Permutation(tags).Draw(d.t, "tag_order")
+	}
+	f.Tag = strings.Join(tags, " ")
+}
+
 func profile() shape.Profile {
 	return shape.Profile{
-		LeafTypes: leafTypes,
-		Nested:    []string{"struct", "pstruct"},
-		MaxDepth:  3, MaxFields: 4, MinFields: 1,
+		LeafTypes:  leafTypes,
+		Nested:     []string{"struct", "pstruct", "embed", "pembed"},
+		EmbedTypes: generatedEmbedTypes,
+		MaxDepth:   3, MaxFields: 4, MinFields: 1,
 	}
 }
 
@@ -318,31 +382,53 @@ func uniquifyFlatNames(fs []shape.Field) {
 	for round := 0; round < 1000; round++ {
 		seen := map[string]bool{}
 		var dup *shape.Field
-		var rec func(fs []shape.Field, prefixes []string)
-		rec = func(fs []shape.Field, prefixes []string) {
+		found := false
+		// owner is the field to rename when a leaf of an embedded type (whose
+		// names are fixed) is involved: the nearest generated struct above it.
+		var rec func(fs []shape.Field, prefixes []string, owner *shape.Field, fixed bool)
+		rec = func(fs []shape.Field, prefixes []string, owner *shape.Field, fixed bool) {
 			for i := range fs {
 				f := &fs[i]
 				var next []string
 				for _, p := range prefixes {
-					next = append(next, p+f.Name)
+					if isEmbedKind(f.Kind) {
+						// an embedded field adds nothing to the flat Go name;
+						// its alias copy is a named field
+						next = append(next, p)
+					} else {
+						next = append(next, p+f.Name)
+					}
 					if hasAnyAliasTag(f) {
 						next = append(next, p+f.Name+flatSuffix)
 					}
 				}
-				if f.Kind != "leaf" {
-					rec(f.Fields, next)
+				switch {
+				case isEmbedKind(f.Kind):
+					ks, _ := embedKids(f.Type)
+					rec(ks, next, owner, true)
+					continue
+				case f.Kind != "leaf":
+					if fixed {
+						rec(f.Fields, next, owner, true)
+					} else {
+						rec(f.Fields, next, f, false)
+					}
 					continue
 				}
 				for _, n := range next {
-					if seen[n] && dup == nil {
+					if seen[n] && !found {
+						found = true
 						dup = f
+						if fixed {
+							dup = owner
+						}
 					}
 					seen[n] = true
 				}
 			}
 		}
-		rec(fs, []string{""})
-		if dup == nil {
+		rec(fs, []string{""}, nil, false)
+		if !found || dup == nil {
 			return
 		}
 		w := extraWord(extra)
@@ -611,6 +697,7 @@ func runCase(src srcKind) func(Case) vrt.Verdict {
 			lab["zero-value-supplied"] = true
 		}
 		emptyLabels(ev.pats, c.Supply, lab)
+		embedLabels(m, ev.pats, lab)
 		if len(ev.classASupplied) > 0 {
 			lab["generic-alias+source-primary-supplied"] = true
 		}
@@ -674,10 +761,10 @@ func runCase(src srcKind) func(Case) vrt.Verdict {
 }
 
 func rule(src string) string {
-	return "config struct types from the shape grammar restricted to leaf types every alias-capable source reads (scalars of all integer widths, floats, bool, string, duration, []string, []int, map[string]string, string set), nested struct / pointer-struct fields to depth 3, <=4 fields per struct; " +
+	return "config struct types from the shape grammar restricted to leaf types every alias-capable source reads (scalars of all integer widths, floats, bool, string, duration, []string, []int, map[string]string, string set), nested struct / pointer-struct fields to depth 3, <=4 fields per struct, and embedded (anonymous) structs, by value or by pointer, in the root struct and in nested structs: the embedded types are four named Go types of the test package (reflect cannot mint named types) with aliased leaves of scalar / slice / map type, an untagged aliased leaf, an aliased struct below the embedded one, and (EmbSrc, at most once per type and never below an aliased field) leaves carrying the source-specific primary / alias tags of all three flatten sources; the embedded field itself is untagged (3/4) or has a dials tag, and is aliased with probability 3/10; " +
 		"each field (leaf or struct-typed, any depth) independently gets an explicit dials tag (single word / camelCase / snake_case / kebab-case, globally unique words) or stays untagged, and a dialsalias tag with probability 1/2 (leaves) or 2/5 (struct-typed fields; at most two aliased structs on one path and no further aliases once the type has ~100 expanded names, because every aliased struct doubles the names below it); leaves not below an aliased struct may also get the source's own primary and/or alias tag (dialsenv[alias], dialsflag[alias], dialspflag[alias]; for decoders the tags of all three are noise); the combination 'source-specific primary + dialsalias, no source-specific alias' is allowed in one case in six; tag order is shuffled; Go field names are extended where needed so that flattened name concatenations stay unique. " +
 		"Per aliased field one of neither / primary only / alias only / both (half of the cases exclude 'both'); an aliased struct-typed field duplicates its subtree, 'supplied under a name' = at least one leaf of that copy supplied; other leaves set or unset at random; one scalar value in five is the zero value of its type and one collection value in four is an explicitly empty non-nil collection (NAME=\"\", -name=, [] / {}), which must count as set exactly like any other value (nil vs empty is compared exactly). " +
-		"Executed against " + src + " with names known by construction (env: PREFIX + UPPER_SNAKE join of words; flags: '-' join of tags / field words; decoders: tag path, documents rendered by the harness). " +
+		"Executed against " + src + " with names known by construction (env: PREFIX + UPPER_SNAKE join of words; flags: '-' join of tags / field words; decoders: tag path, documents rendered by the harness; an untagged embedded struct contributes no name element in the flatten sources, JSON and Cue (promotion), the lower-cased type name in YAML and the type name in TOML; with a dials tag it is an ordinary named field; its alias copy is always a named field). " +
 		"Oracle: some field supplied under both names => an error whose text contains the quoted Go name of such a field; otherwise no error and the returned value equals the model leaf by leaf (value under either name lands, neither => nil, nothing else set). " +
 		"non-trivial = >=2 aliased field instances at different depths with different patterns; distinct = distinct case JSON"
 }
@@ -689,6 +776,7 @@ var assumptions = []string{
 	"flag sources get explicit FlagSets via NewSetWithArgs (never flag.CommandLine / os.Args) and a zero-valued template",
 	"source-specific tags are generated only on leaf fields that are not below an aliased struct field: their names are absolute, so below an aliased struct both copies would share one name and 'which name was used' is undefined",
 	"untagged fields are addressed by the documented default of each format (Go field name for JSON/Cue/TOML, lower-cased field name for YAML)",
+	"untagged embedded structs: promoted by the flatten manglers and by encoding/json (Cue follows it); yaml.v2 does not inline without a yaml tag option and go-toml v1 does not promote a pointer-typed embedded field, so both address it by its type name (lower-cased for YAML); each checked on the unmodified tree",
 	"'naming the field' = the innermost error of the returned chain (errors.Unwrap to the end) contains the Go field name in quotes, which is what AliasMangler.Unmangle prints; names of enclosing fields quoted by outer wrappers do not count",
 }
 
